@@ -568,14 +568,26 @@ fn tcp_leg(src: &mut Src, ctx: &mut RunCtx, solo: &Arc<Solo>) -> RunResult {
                 c.outs[0].preroll(src.below(c.outs[0].capacity()));
                 sys::arm(IoPlan { read_chunks: rchunks.clone(), ..Default::default() }, esz);
                 // The source must never be asked to work with a full output
-                // here: what it does then is C09's business.
+                // here: what it does then is C09's business. A slow reader
+                // (one run in three) lets the output fill up and then frees
+                // one or two slots at a time, so that reads happen with hardly
+                // any room — and with part of a sample carried over.
+                let hoard = src.chance(1, 3);
+                if hoard {
+                    ctx.count("tcp_slow_reader");
+                }
                 let mut guard = 0;
                 let r = loop {
                     guard += 1;
                     if guard > 400_000 {
                         break Err("no EOF from TcpSource".to_string());
                     }
-                    if c.outs[0].available() > 0 {
+                    if hoard {
+                        if c.outs[0].available() == c.outs[0].capacity() {
+                            let k = src.range(1, 2);
+                            c.outs[0].drain(k);
+                        }
+                    } else if c.outs[0].available() > 0 {
                         c.outs[0].drain(usize::MAX);
                     }
                     let st = step(&mut c, solo, false);
